@@ -752,3 +752,9 @@ def replay(case, acc):
 
 def unit_test(case):
     return "# entry history (initial entry index, then operations; see mc/checks/c19.py): " + repr(case) + "\n"
+
+
+def ENV_SHARDS(tier):
+    """The broad, cheap families: run again in a fresh interpreter per environment (engine.run_environments)."""
+    return [s for n, s in enumerate(shards('quick')) if s[0] != "hist" or n % 10 == 0]
+
